@@ -230,26 +230,26 @@ def keysOkB (seen : List (Nat × Bytes)) : List (Item × Item) → Bool
     | some c => !seen.contains c && keysOkB (c :: seen) rest
 
 mutual
-/-- the items the unprotected decoder can produce (= the items that round-trip). -/
-def wfB : Item → Bool
+/-- the items the decoder can produce (= the items that round-trip); `prot` = the protected form, which also
+carries interop / pointer / nil items. -/
+def wfB (prot : Bool) : Item → Bool
   | .byteArray b => decide (b.length ≤ WireLimits.stackMaxSize)
   | .buffer b => decide (b.length ≤ WireLimits.stackMaxSize)
   | .bool _ => true
   | .int c => decide (canonInt c = c) && decide (c.length ≤ WireLimits.bigintMaxBytesLen)
-  | .array l => wfListB l
-  | .struct l => wfListB l
-  | .map m => wfPairsB m && keysOkB [] m
+  | .array l => wfListB prot l
+  | .struct l => wfListB prot l
+  | .map m => wfPairsB prot m && keysOkB [] m
   | .null => true
-  | .interop => false
-  | .pointer _ => false
-  | .invalid => false
-def wfListB : List Item → Bool
+  | .interop => prot
+  | .pointer p => prot && decide (p < 2 ^ 64)
+  | .invalid => prot
+def wfListB (prot : Bool) : List Item → Bool
   | [] => true
-  | x :: xs => wfB x && wfListB xs
-def wfPairsB : List (Item × Item) → Bool
+  | x :: xs => wfB prot x && wfListB prot xs
+def wfPairsB (prot : Bool) : List (Item × Item) → Bool
   | [] => true
-  | (k, v) :: rest => wfB k && wfB v && wfPairsB rest
+  | (k, v) :: rest => wfB prot k && wfB prot v && wfPairsB prot rest
 end
-
 end Item
 end NeoModel.Wire
